@@ -5,15 +5,18 @@ use std::borrow::Cow;
 use bstr::{ByteSlice, ByteVec};
 include!("extracted.rs");
 
-/// Documented meaning (doc comment of file_name, std::path::Path::file_name for `/`-separated byte
-/// paths): the final component, unless the path is empty or its final component is empty, `.` or `..`.
+/// What the property needs of `file_name` (and, since fix c-dotdot, what its doc comment says): the text
+/// after the last `/`, unless that text is empty.  The set strategies (basename literal, extension,
+/// required extension) look their literal up in this value while the single-glob matcher runs a regex
+/// over the whole path, so the two agree only if the basename is the purely textual final component --
+/// including `.` and `..` (glob `?.` matches the path `..`).
 pub fn spec_file_name(p: &[u8]) -> Option<&[u8]> {
     let mut s = p.len();
     while s > 0 && p[s - 1] != b'/' {
         s -= 1;
     }
     let name = &p[s..];
-    if name.is_empty() || name == b"." || name == b".." { None } else { Some(name) }
+    if name.is_empty() { None } else { Some(name) }
 }
 
 /// Documented meaning of file_name_ext: None for the empty name or a name without `.`, otherwise the
